@@ -139,7 +139,7 @@ def strip_views(t):
         if t.op == 'refine':
             t = t.args[0]
             continue
-        if t.op == 'mu' and getattr(t, 'next', None) is t:
+        if t.op == 'mu' and _never_rebound(t):
             t = t.args[0]           # carried through a loop without ever being rebound: the value it had before the loop
             continue
         if t.op == 'gamma':
@@ -154,6 +154,22 @@ def strip_views(t):
             continue
         break
     return t
+
+
+def _never_rebound(mu):
+    """the loop-carried value comes back unchanged on the back edge (directly, or through inner loops that do not rebind it either)"""
+    nx = getattr(mu, 'next', None)
+    for _ in range(6):
+        if nx is mu:
+            return True
+        if isinstance(nx, T) and nx.op == 'mu' and nx is not mu and getattr(nx, 'next', None) is nx:
+            nx = nx.args[0]         # an inner loop carried it without rebinding
+            continue
+        if isinstance(nx, T) and nx.op == 'refine':
+            nx = nx.args[0]
+            continue
+        return False
+    return False
 
 
 def is_conj(t):
